@@ -62,7 +62,7 @@ def strategy(tier):
             "where": draw(st.sampled_from(["lower", "upper", "both"])),
             "size": draw(st.sampled_from([1, 2, -3])),
             "delta": draw(st.sampled_from([1e-3, 1e-2, 0.25])),
-            "how": draw(st.sampled_from(["scale", "shear"])),
+            "how": draw(st.sampled_from(["scale", "shrink", "shear", "phase"])),
             "option": draw(st.sampled_from(["vectors+indices", "solver+full", "pairs+hermitian", "kpm+nonhermitian"])),
         }
         return {"problem": p, "inject": kind, "par": par}
@@ -274,14 +274,23 @@ def check_case(case, enforce_all=False):
             V = vecs[b].as_mutable()
         else:
             V = vecs[b]
-        if par["how"] == "scale" or N < 2:
+        how = par["how"]
+        pairs = not p["hermitian"] and (par["where"] != "both" or how == "phase")
+        if how == "phase" and not pairs:
+            how = "shrink"  # a phase on a single basis V drops out of V^dagger V: only meaningful for (R, L) pairs
+        if how == "scale" or (how == "shear" and N < 2):
             V[:, col] = V[:, col] * (1 + d)
+        elif how == "shrink":
+            V[:, col] = V[:, col] * ((1 - d) if p["repr"] != "sympy" else sympy.Rational(1, 2))
+        elif how == "phase":
+            V[:, col] = V[:, col] * (-1 if par["b"] % 2 else (sympy.I if p["repr"] == "sympy" else 1j))
         else:
             other = (states[b][col] + 1) % N
             V[other, col] = V[other, col] + d
         vecs[b] = V
+        out.labels.append("nonorthonormal=" + how)
         kwargs.pop("subspace_indices", None)
-        if not p["hermitian"] and par["where"] != "both":
+        if pairs:
             # (R, L) pairs: break only one side
             clean = [np.eye(N, dtype=complex)[:, s] for s in states] if p["repr"] != "sympy" else [sympy.eye(N)[:, s] for s in states]
             kwargs["subspace_eigenvectors"] = [(r, l) for r, l in zip(vecs, clean)]
